@@ -10,5 +10,5 @@ CONSTANTS
   EraseRetBug = FALSE
   GrowBug = TRUE
 VIEW BView
-INVARIANTS Refines BRefines RepInv BRepInv ReturnsAgree Bounded BBounded
+INVARIANTS BRepInv
 CHECK_DEADLOCK FALSE
